@@ -11,6 +11,33 @@ COMMON_NOTE = ("Trusted base: Coq 8.16.1 kernel + vm_compute (no native_compute,
                "modelled, not verified. ")
 
 CLAIMED = {
+ "C08": dict(
+  text="Theorems over the reals about _normalise_euler_angles and _equivalent_euler REGENERATED from soprano/nmr/utils.py on every run, for both axis conventions "
+       "(ZYZ, ZXZ) and both senses: the folding into the NMR ranges only moves the angles inside their coset of the four 180-degree flips of the principal axes, so "
+       "the tensor rebuilt from the normalised angles equals the tensor rebuilt from the raw angles for ANY principal values (active R D R^T, passive R^T D R); the "
+       "result lies in alpha in [0,2pi), beta in [0,pi/2+eps], gamma in [-eps,pi) (mirrored for passive), eps being the code's own boundary tolerance; each of the "
+       "four listed equivalent sets differs from the input by one of the four DISTINCT flips (every row proved), hence reproduces the tensor; axially symmetric "
+       "tensors are reproduced with the free third angle set to zero and isotropic ones by any angles (orthogonality of the rotation matrices). Tied to the code by "
+       "regeneration + correspondence of the generated functions with the Python ones on k*pi/12 triples, and a reconstruction oracle on NMRTensor.euler_angles "
+       "(generic, axial, isotropic, near-degenerate, gimbal orientations x 4 orders x 2 conventions x active/passive: reconstruction, ranges, equivalents, "
+       "degrees vs radians, right-handedness of the stored frame).",
+  note="PARTIAL: scipy Rotation (from_matrix / as_euler / from_euler) is an oracle; the closed-form edge-case branch (_handle_euler_edge_cases, unique axis along x) and "
+       "the pipeline as a whole are judged by the reconstruction oracle only. Known finding C08-F08a: PASSIVE angles of axially symmetric tensors (crash or no "
+       "reproduction, left-handed stored frame) - recorded, not repaired (the branch is pinned by tabulated values in the existing tests).",
+  technique="Coq proof (Reals; trigonometric rewriting + ring, lra over case splits) over functions regenerated from source (py2v) + correspondence + reconstruction oracle",
+  design="§8 C08"),
+ "C09": dict(
+  text="Theorems over the reals about _equivalent_relative_euler REGENERATED from soprano/nmr/utils.py on every run (ZYZ and ZXZ, active and passive): each of the "
+       "sixteen listed sets is proved equal to S_b . M . S_a for a NAMED pair of 180-degree flips of B's and A's principal axes, the sixteen pairs are pairwise "
+       "distinct (so the table is exactly the D2 x D2 double coset; a mistyped or duplicated row breaks a lemma), and every member of the double coset maps a "
+       "principal-value matrix onto the same tensor up to a flip of the target frame. Tied to the code by regeneration + correspondence with the Python function on "
+       "k*pi/12 triples and a double-coset oracle on euler_to / equivalent_euler_to of the real class: generic pairs (all 17 angle sets satisfy M = S_b (R_B^T R_A) "
+       "S_a), identical and aligned pairs (zero angles / a flip), and - when a partner is axially symmetric - the component of the other tensor along the symmetry axis.",
+  note="PARTIAL: the pipeline (rotation_to, the degenerate branches with arcsin closed forms, _tryallanglestest) is not modelled; for an axially symmetric partner only "
+       "the clause the statement makes (the component along the symmetry axis) is demanded. 'The rotation defined by the angles' is read modulo the flips of both "
+       "principal frames. scipy Rotation is an oracle.",
+  technique="Coq proof (Reals; trigonometric rewriting + ring) over tables regenerated from source (py2v) + correspondence + double-coset oracle",
+  design="§8 C09"),
  "C05": dict(
   text="Representation independence is proved, axiom-free over Z, at the level of the specifications that the exactness theorems of C03 / C04 / C07 / C11 are "
        "stated against: moving an atom by a lattice vector only re-labels the periodic images of its pair vectors and leaves the minimum-image length "
